@@ -435,6 +435,17 @@ func vGenCase(st *vStores, r *vrng, ci int, mode string, nops int) []vStep {
 			continue
 		}
 		w := r.intn(100)
+		// Do not let a terminated payment soak up the rest of the history
+		// with refusals: usually restart (Failed) or delete it.
+		if q, err := st.kv.FetchPayment(context.Background(),
+			vHash(ci, h)); err == nil && q.Terminated() && r.intn(10) < 6 {
+
+			if q.Status == StatusFailed || r.intn(3) == 0 {
+				w = 0
+			} else {
+				w = 83
+			}
+		}
 		switch {
 		case w < 8:
 			v := baseVal[h]
@@ -608,7 +619,7 @@ func TestVerifPayments(t *testing.T) {
 	out := vOpenOut()
 	defer out.close()
 	master := vNewRng(vSeed())
-	ncases := vCases(150, 4000)
+	ncases := vCases(150, 1500)
 	chunk := int(vEnvInt("VERIF_CHUNK", 40))
 
 	var st *vStores
